@@ -102,12 +102,15 @@ def match_on(fn, enum_name, min_arms=10):
     """the `match` expressions in a function whose arms are patterns of the given
     enum, with at least min_arms arms (or-patterns expanded)"""
     out = []
+    # inside `impl Enum`, `Self::V` is `Enum::V`
+    own = ((fn.get("_owner") or {}).get("self_ty") or "").split("<")[0] if isinstance(fn, dict) else ""
+    names = (enum_name, "Self") if own == enum_name else (enum_name,)
     for m in A.find(fn.get("body", fn) if isinstance(fn, dict) and fn.get("k") == "Fn" else fn, "Match"):
         n = 0
         for arm in m["arms"]:
             for p in A.flatten_or(arm["pat"]):
                 segs, _ = A.pat_variant(p)
-                if segs and len(segs) >= 2 and segs[-2] == enum_name:
+                if segs and len(segs) >= 2 and segs[-2] in names:
                     n += 1
         if n >= min_arms:
             out.append(m)
@@ -120,7 +123,7 @@ def arms_by_variant(m, enum_name):
     for arm in m["arms"]:
         for p in A.flatten_or(arm["pat"]):
             segs, subs = A.pat_variant(p)
-            if segs and len(segs) >= 2 and segs[-2] == enum_name:
+            if segs and len(segs) >= 2 and segs[-2] in (enum_name, "Self"):
                 out.append((segs[-1], subs, arm))
             else:
                 out.append((None, None, arm))
